@@ -103,6 +103,13 @@ theorem allocBound_stunDecode (bs : List UInt8) : (runSlice Ice.stunDecode bs).a
     (b := Buf.ofList []) (n := 0) bs.toArray (by omega) (fun _ _ h => by omega))
   simpa [runSlice] using h
 
+/-- `verify_message_integrity` (the ICE request authentication added on main) walks any byte string without panic,
+terminates, and copies at most the message once. -/
+theorem noPanic_verifyMessageIntegrity (bs : List UInt8) (s : String) : runSlice Ice.verifyMi bs ≠ .panic s :=
+  safe_noPanic (Ice.verifyMi_safe bs.toArray _) s
+theorem allocBound_verifyMessageIntegrity (bs : List UInt8) : (runSlice Ice.verifyMi bs).allocs ≤ bs.length + 20 := by
+  simpa [runSlice] using safe_allocs (Ice.verifyMi_safe bs.toArray (Buf.ofList []))
+
 /-- the shared-socket demux key extraction (`peer_ufrag_from_binding_request` → `username_from_stun_bytes`)
 is total and allocates at most `2·|bs|`. -/
 theorem noPanic_peerUfrag (bs : List UInt8) (s : String) : runSlice Ice.peerUfrag bs ≠ .panic s :=
